@@ -778,6 +778,49 @@ Definition rc_after_parse (recover : bool) (file : list N) (len : N) (recon_of :
       end
   end.
 
+Definition rc_n_Kids : list N := [75; 105; 100; 115].
+
+(* is there a leaf (a dictionary without /Kids) under the page-tree node og: what `m->pages.empty()` decides at
+   the end of a reconstruction that happens inside parse() *)
+Fixpoint rc_has_page (fuel : nat) (file : list N) (len : N) (t : rc_table) (og : rc_og) : bool :=
+  match fuel with
+  | O => false
+  | S f =>
+      match rc_lookup og t with
+      | None => false
+      | Some off =>
+          if (off =? 0) || negb (rc_header_ok file len og off) then false else
+          match rc_dict_at file len off with
+          | None => false
+          | Some d =>
+              match dict_get d rc_n_Kids with
+              | None => true
+              | Some (PArr kids) =>
+                  existsb (fun k => match k with
+                                    | PRef n g => rc_has_page f file len t (Z.of_N n, Z.of_N g)
+                                    | PDict _ => true
+                                    | _ => false
+                                    end) kids
+              | Some _ => false
+              end
+          end
+      end
+  end.
+
+Definition rc_pages_of (file : list N) (len : N) (t : rc_table) (root : option rc_og) : option rc_og :=
+  match root with
+  | None => None
+  | Some r =>
+      match rc_lookup r t with
+      | None => None
+      | Some off =>
+          match rc_dict_at file len off with
+          | Some d => match dict_get d rc_n_Pages with Some (PRef n g) => Some (Z.of_N n, Z.of_N g) | _ => None end
+          | None => None
+          end
+      end
+  end.
+
 Definition rc_view (recover : bool) (file : list N) : rc_result :=
   let len := rc_len file in
   let maxid := Z.min (rc_int_max - 1) (Z.of_N (len / 3)) in
@@ -807,7 +850,13 @@ Definition rc_view (recover : bool) (file : list N) : rc_result :=
       if r_fatal r then mkRes true true true (r_table r) (r_root r) (xr_unsupported xr) else
       let st := mkRS (r_table r) true true false (r_root r) in
       let fin := rc_after_parse recover file len st st in
-      mkRes (rs_fatal fin) true true (rs_table fin) (rs_root fin) (xr_unsupported xr)
+      (* "unable to find any pages while recovering damaged file" *)
+      let no_pages :=
+        match rc_pages_of file len (r_table r) (r_root r) with
+        | Some pg => negb (rc_has_page (S (length (r_table r))) file len (r_table r) pg)
+        | None => false
+        end in
+      mkRes (rs_fatal fin || no_pages) true true (rs_table fin) (rs_root fin) (xr_unsupported xr)
     else mkRes true false false [] None (xr_unsupported xr).
 
 (* QPDFJob: an exception ends the run with status 2, any warning makes it 3 *)
